@@ -147,3 +147,28 @@ Proof.
     inversion H; subst. cbn. split; [reflexivity|]. exists s. split; reflexivity.
   - discriminate.
 Qed.
+
+(** C09: the accepted-keys list the derive builds (for UnknownKey reports and for the user's
+    deny function) is exactly the effective keys of the non-skipped fields in DECLARATION order,
+    whatever the number of fields and wherever the skipped ones are (the sort that moves skipped
+    fields last is stable) *)
+Theorem named_vectors_keys fs ra v :
+  named_vectors fs ra = Accept v ->
+  exists extra,
+    Forall2 (fun f x => fst x = f /\ read_fattrs (fd_attrs f) = Some (snd x)) fs extra
+    /\ v_keys v = map (fun x => key_name_for_ident (fd_ident (fst x)) ra (fa_rename (snd x)))
+                      (filter (fun x => negb (fa_skipped (snd x))) extra).
+Proof.
+  unfold named_vectors. fold (read_all fs). intros H.
+  destruct (read_all fs) as [extra| |] eqn:Er; cbn [dbind] in H; try discriminate.
+  exists extra. split; [apply read_all_shape; exact Er|].
+  set (sk := fun x : field tpos * fattrs tpos => fa_skipped (snd x)) in *.
+  destruct (sorted_shape sk extra) as [Hs Hk].
+  set (sorted := stable_sort_skipped sk extra) in *.
+  destruct (dall (map (fun x => field_ty (snd x) (fd_ty (fst x))) sorted)) as [tys| |] eqn:Et;
+    cbn [dbind] in H; try discriminate.
+  destruct (dall (map (fun x => field_default (snd x) (fd_ty (fst x))) sorted)) as [defs| |] eqn:Ed;
+    cbn [dbind] in H; try discriminate.
+  inversion H; subst v; clear H. cbn [v_keys].
+  subst sorted. subst sk. cbv beta in *. rewrite Hk. reflexivity.
+Qed.
